@@ -26,7 +26,7 @@
 //   tick                         Node::tick()                                          -> <st> due=<..> relay=<0|1>
 //                                due = pending fetches this tick retries by dialling (announcer has no live session):
 //                                <chunk8>:<announced endpoint hex|->:<relay hint endpoints hex joined by +|->,...
-//   rt <scenario>                real threads, real sockets (thorough tier)            -> ok ...
+//   rt <scenario>                real threads, real sockets: all | control-only | stall | stall-reads   -> ok ...
 // <st> = ok | escape:<exception class>
 // hints (state observed *before* the op, by harness code that does not run the code under test's
 //        exception paths):  cm = cached manifest of the chunk a CHUNK message names:
@@ -566,7 +566,7 @@ template <class I> bool shorten_control_timeout(I& server, std::chrono::millisec
 //   ctl-after  : a PING after the stalling clients went away
 //   tr-second, tr-pay : a well-formed transport handshake while a client stalls inside its peer id / inside its
 //                announced handshake payload (deadline 8 s: the inbound handshake is bounded by kHandshakeTimeout = 2 s)
-std::string stall_probe() {
+std::string stall_probe(bool reads_only) {
     std::string out;
     const bool bounded = shorten_control_timeout(*impl, std::chrono::milliseconds(300));
     out += std::string(" ctl-timeout=") + (bounded ? "300" : "none");
@@ -594,6 +594,13 @@ std::string stall_probe() {
     out += " ctl-pay0=" + behind(store_head);                             // after the blank line, no payload byte
     out += " ctl-payhalf=" + behind(store_head + std::string(32, 'x'));   // half of the announced payload
     out += " ctl-paym1=" + behind(store_head + std::string(63, 'x'));     // all but one byte
+
+    if (reads_only) {
+        out += " ctl-after=" + control_probe(cport, "COMMAND:PING\n\n", 4000);
+        impl->stop();
+        node->stop_transport();
+        return out;
+    }
 
     ChunkId big{}; big[0] = 0xCB;
     protocol::Manifest big_manifest;
@@ -662,8 +669,8 @@ std::string real_threads(const std::string& scenario) {
         while (ticker_run) { std::this_thread::sleep_for(std::chrono::milliseconds(5)); verif::vclock_advance(5'000'000); }
     });
     std::string out;
-    if (scenario == "stall") {
-        out = stall_probe();
+    if (scenario == "stall" || scenario == "stall-reads") {
+        out = stall_probe(scenario == "stall-reads");
     } else {
         Config oc{};
         oc.identity_seed = 0x77u;
